@@ -356,6 +356,24 @@ func (l *Listener) Accept(d time.Duration) (*Conn, error) {
 	return NewConn(c, int(l.gen.Add(1))), nil
 }
 
+// Drain accepts and closes every connection already queued on the listener (connections the library
+// dialed that the peer never accepted). It stops after three consecutive 40 ms polls found nothing: a
+// single short accept deadline can expire spuriously on a loaded machine although connections are queued.
+func (l *Listener) Drain() (n int) {
+	for idle := 0; idle < 3; {
+		c, err := l.Accept(40 * time.Millisecond)
+		if err != nil {
+			idle++
+			continue
+		}
+		idle = 0
+		n++
+		c.Close()
+	}
+
+	return n
+}
+
 // Close closes the listener.
 func (l *Listener) Close() { _ = l.L.Close() }
 
